@@ -20,7 +20,7 @@ RULE = (
     "an execution = one complete interleaving (choice list) of a harness; all interleavings at coarse points (lock operations, "
     "file-system probes, Template construction, collection get/set/pop), and all interleavings with <= b preemptions at every executed "
     "line of mako/lookup.py and mako/util.py (plus runtime/cache/template/generated modules for the render harnesses). "
-    "Non-trivial = executions with at least one context switch before the first thread finished."
+    "Non-trivial = executions with at least one preemption (a switch away from a thread that could have continued)."
 )
 LEVEL_TEXT = (
     "For each harness (same-URI cold load, different URIs, modify-while-loading, failing compile, LRU under contention, concurrent "
@@ -39,10 +39,10 @@ ASSUMPTIONS = [
     "the simulated clock / file mtimes are owned by the harness",
 ]
 BOUNDS = {
-    "quick": {"coarse": "all interleavings (2 threads), bound 2 (3 threads)", "fine_preemption_bound": 1, "threads": "2-3"},
-    "thorough": {"coarse": "all interleavings (2 threads), bound 3 (3 threads)", "fine_preemption_bound": 2, "threads": "2-3"},
+    "quick": {"coarse": "all interleavings (2 threads; lru harness bound 3), bound 2 (3 threads)", "fine_preemption_bound": 1, "threads": "2-3"},
+    "thorough": {"coarse": "all interleavings (2 threads; lru harness bound 5), bound 3 (3 threads)", "fine_preemption_bound": 2, "threads": "2-3"},
 }
-READY = False
+READY = True
 
 _PROC = {}
 
@@ -327,6 +327,40 @@ def h_lru(w, nthreads):
     return [mk(p) for p in plans], finish
 
 
+def h_lru_modify(w, nthreads):
+    """collection_size=1, warm entry whose file has changed: eviction (under the lock) races with the
+    stale-entry removal of _check (outside the lock)"""
+    for u in ("u", "v", "w"):
+        w.write(u, "A", 990)
+    w.lookup.get_template("u")  # compiled at clock 1000
+    w.clock.now = 1003.0
+    w.write("u", "B", 1002)
+    plans = [["v", "w"], ["u"], ["u", "v"]][:nthreads]
+    want = {"u": "B", "v": "A", "w": "A"}
+
+    def mk(us):
+        def body():
+            return [w.lookup.get_template(u) for u in us]
+
+        return body
+
+    def finish(ex):
+        v = []
+        bad = _results_ok(ex, nthreads)
+        if bad:
+            return [("lru-modify:exception", "no call raises", "Templates", bad)]
+        for i, us in enumerate(plans):
+            for u, o in zip(us, ex.results[i][1]):
+                if _render(o) != marker(u, want[u]):
+                    v.append(("lru-modify:content", "fresh content, unaffected by eviction", marker(u, want[u]), _render(o)))
+        n = len(dict.keys(w.lookup._collection))
+        if n > 1.5 * 1:
+            v.append(("lru-modify:bound", "a bounded lookup stays within 1.5n at quiescence", "<= 1", n))
+        return v
+
+    return [mk(p) for p in plans], finish
+
+
 HARNESSES = {
     "same": (h_same, -1),
     "diff": (h_diff, -1),
@@ -334,6 +368,7 @@ HARNESSES = {
     "broken": (h_broken, -1),
     "lru": (h_lru, 1),
     "same-lru": (h_same, 1),
+    "lru-modify": (h_lru_modify, 1),
 }
 
 
@@ -414,16 +449,35 @@ def h_render(w, nthreads):
     return [mk(str(i)) for i in range(nthreads)], finish
 
 
+COMPILE_TEXTS = [
+    "<%def name='f(a)'>${a}!</%def>A${f(x)}\n% if x:\nyes\n% endif\n",
+    "<%! k = 7 %>B${k}${x | h}<%doc>z</%doc>\n## c\n",
+    "<%text>${raw}</%text>C${x}\\\nD",
+]
+
+
+def compile_solo():
+    from mako.template import Template
+    from mako import lexer as mlexer
+
+    if _PROC.get("pid") != os.getpid():
+        _PROC.clear()
+        _PROC["pid"] = os.getpid()
+    if "csolo" not in _PROC:
+        out = []
+        for i, t in enumerate(COMPILE_TEXTS):
+            mlexer._regexp_cache.clear()
+            out.append(Template(t, uri="t%d" % i).render(x="1"))
+        _PROC["csolo"] = out
+    return _PROC["csolo"]
+
+
 def h_compile(w, nthreads):
     """first compile of different template texts in different threads (shared regexp cache, module registry)"""
     from mako.template import Template
 
-    texts = [
-        "<%def name='f(a)'>${a}!</%def>A${f(x)}\n% if x:\nyes\n% endif\n",
-        "<%! k = 7 %>B${k}${x | h}<%doc>z</%doc>\n## c\n",
-        "<%text>${raw}</%text>C${x}",
-    ][:nthreads]
-    expected = ["A1!\nyes\n", "B71", "${raw}C1"]
+    texts = COMPILE_TEXTS[:nthreads]
+    expected = w.solos
 
     def mk(i):
         def body():
@@ -476,8 +530,21 @@ def run_one(spec, prefix, record=False):
     name, nthreads, fine = spec
     s = sched.Scheduler(prefix, trace_files=trace_prefixes(name) if fine else None, record_trace=record)
     if name in RENDER_HARNESSES:
-        solos = solo_outputs() if name == "render" else None
+        solos = solo_outputs() if name == "render" else compile_solo()
         w = RenderWorld(s, fine)
+        if name == "compile" and not fine:
+            from mako import lexer as mlexer
+
+            class YCache(dict):
+                def __getitem__(self, k):
+                    s.yield_point("regexp_cache.get")
+                    return dict.__getitem__(self, k)
+
+                def __setitem__(self, k, v):
+                    s.yield_point("regexp_cache.set")
+                    return dict.__setitem__(self, k, v)
+
+            w.sm.set(mlexer, "_regexp_cache", YCache())
         w.solos = solos
         fn = RENDER_HARNESSES[name]
     else:
@@ -501,23 +568,23 @@ def run_one(spec, prefix, record=False):
 
 
 def specs(tier):
-    """(harness, nthreads, fine, bound)"""
+    """(harness, nthreads, fine, bound)   bound None = all interleavings"""
     q = tier == "quick"
     out = []
-    for h in ("same", "diff", "modify", "broken", "lru", "same-lru"):
-        n2 = 2
-        out.append((h, n2 if h != "modify" else 2, False, None))  # coarse, all interleavings
+    for h in ("same", "diff", "modify", "broken", "lru", "same-lru", "lru-modify"):
+        big = h in ("lru", "lru-modify")
+        out.append((h, 2, False, (3 if q else 5) if big else None))  # coarse points
         out.append((h, 3, False, 2 if q else 3))
-        out.append((h, 2 if h != "modify" else 3, True, 1 if q else 2))
+        out.append((h, 3 if h == "modify" else 2, True, 1 if q else 2))  # every line of lookup.py / util.py
         if not q:
             out.append((h, 3, True, 1))
     out.append(("render", 2, False, None))
     out.append(("render", 2, True, 1 if q else 2))
-    out.append(("compile", 2, False, None))
-    out.append(("compile", 2, True, 1))
+    out.append(("compile", 2, False, 1 if q else 2))
     if not q:
+        out.append(("compile", 2, True, 1))
         out.append(("render", 3, True, 1))
-        out.append(("compile", 3, False, 2))
+        out.append(("compile", 3, False, 1))
     return out
 
 
@@ -531,12 +598,11 @@ def plan(tier, seed):
             (k, r[0]) for k, r in sorted(ex.results.items())
         ] == [(k, r[0]) for k, r in sorted(ex2.results.items())]
         firsts = sched.first_level(ex, bound)
-        jobs.append({"spec": spec, "bound": bound, "root": True, "prefixes": [[]], "det": det, "points": len(ex.points)})
-        nchunks = 24 if len(firsts) > 48 else max(1, len(firsts) // 2)
-        for i in range(nchunks):
-            ch = firsts[i::nchunks]
-            if ch:
-                jobs.append({"spec": spec, "bound": bound, "root": False, "prefixes": ch})
+        jobs.append({"spec": spec, "bound": bound, "root": True, "prefixes": [[]], "det": det, "points": len(ex.points), "w": 0})
+        for pre in firsts:
+            # one job per first-level sub-tree; earlier branch points have larger sub-trees: start them first
+            jobs.append({"spec": spec, "bound": bound, "root": False, "prefixes": [pre], "w": (len(ex.points) - len(pre)) * (3 if n > 2 else 1)})
+    jobs.sort(key=lambda j: -j["w"])
     return jobs
 
 
@@ -553,8 +619,8 @@ def run_job(job):
         st.traces += 1
         st.states += 1
         st.transitions += len(ex.points)
-        if ex.switches() > 0:
-            st.nontrivial += 1
+        if any(p["running_enabled"] and p["chosen"] != 0 for p in ex.points):
+            st.nontrivial += 1  # at least one preemption
         key = (spec[0], tuple((k, r[0], _outcome(r)) for k, r in sorted(ex.results.items())))
         outcomes[str(key)] += 1
         for sig, oracle, exp, obs in viol:
@@ -577,7 +643,7 @@ def run_job(job):
         if capped:
             st.exhaustive = False
             st.caps.append("%s: execution cap hit below prefix %s" % (label, pre))
-    st.extra.setdefault("executions", {})[label] = n_total
+    st.extra.setdefault("executions", {})[label] = n_total + st.extra.get("executions", {}).get(label, 0)
     return st
 
 
@@ -586,6 +652,10 @@ def _outcome(r):
         v = r[1]
         if isinstance(v, (str, tuple)):
             return str(v)[:60]
+        if isinstance(v, list):
+            return [_render(t) for t in v]
+        if hasattr(v, "render"):
+            return _render(v)
         return type(v).__name__
     if r[0] == "exc":
         return type(r[1]).__name__
